@@ -5,6 +5,7 @@
 -/
 import Hy.Drv.Frame
 import Hy.Drv.Ring
+import Hy.Drv.Bbr
 
 open Hy.Drv
 
@@ -29,5 +30,6 @@ def main (args : List String) : IO UInt32 := do
   match args with
   | ["frame"] => loopPure stdin stdout Frame.step; return 0
   | ["ring"] => loopState stdin stdout Ring.ringStep Ring.ringInit; return 0
+  | ["bbr"] => loopState stdin stdout Bbr.step Bbr.init; return 0
   | ["pnq"] => loopState stdin stdout Ring.pnqStep Ring.pnqInit; return 0
   | _ => IO.eprintln "usage: hydrv <component>"; return 2
